@@ -520,7 +520,8 @@ func (sm *shardManagerImpl) UnregisterShard(clientShardID history.ClusterShardID
 		// Update metrics after local shards change
 		sm.mutex.Unlock()
 
-		sm.removeLocalShard(clientShardID)
+		// The entry was deleted above, under the lock that checked its timestamp. Deleting it again
+		// here, after unlocking, would erase a registration made in between by a newer incarnation.
 		sm.broadcastShardChange("unregister", clientShardID)
 
 		// Trigger memberlist metadata update to propagate NodeMeta to other nodes
